@@ -1360,6 +1360,28 @@ pub fn gen_any(prop: &str, seed: u64) -> Value {
                 cfg.seed = seed;
             }
             sparse(&mut cfg);
+            // path expressions: in a third of the runs of the general checks a quarter of the calls
+            // use an equivalent but non-canonical expression ('..', '.', doubled slashes, successive
+            // joins from a non-root base) - same canonical path, same model, every backend
+            if matches!(prop, "C01" | "C02" | "C03" | "C05" | "C09" | "C11" | "C12" | "C15") {
+                let mut r = Rng::new(crate::rng::mix(seed, 0x4057));
+                if r.pct(30) {
+                    let names: Vec<String> = crate::gen::NAME_POOL.iter().take(18).map(|s| s.to_string()).collect();
+                    let cell = std::cell::RefCell::new(r);
+                    cfg.ops = cfg
+                        .ops
+                        .iter()
+                        .map(|op| {
+                            if cell.borrow_mut().pct(25) {
+                                crate::mon_twin::map_op(op, &|p: &P| P { fs: p.fs, s: hostile(&p.s, &mut cell.borrow_mut(), &names) }, 0)
+                            } else {
+                                op.clone()
+                            }
+                        })
+                        .collect();
+                    cfg.extra.insert("hostile_paths".into(), "1".into());
+                }
+            }
             serde_json::to_value(cfg).unwrap()
         }
         "conc" => serde_json::to_value(gen_conc(prop, seed)).unwrap(),
